@@ -697,7 +697,18 @@ func (c *codegen) convertFuncDecl(file ast.Node, decl *ast.FuncDecl, pkg *types.
 
 	f.rng.End = uint16(c.prog.Len() - 1)
 
+	// Lambdas are compiled in the order they were met in, so that the same
+	// source always gives the same script.
+	pending := make([]*lambdaScope, 0, len(c.lambda))
 	for _, f := range c.lambda {
+		if !f.compiled {
+			pending = append(pending, f)
+		}
+	}
+	slices.SortFunc(pending, func(a, b *lambdaScope) int {
+		return cmp.Compare(a.label, b.label)
+	})
+	for _, f := range pending {
 		if f.compiled {
 			continue
 		}
